@@ -9,24 +9,7 @@
   operation sequence: any number of lookups, locations, releases with any outcome, cancellations
   at any handle boundary, uncaches, in any interleaving.
 -/
-import Upnp.Lemmas.C18SafeStep
-/-
-  FULL-STRENGTH STATEMENT (not yet proved end to end):
-
-      theorem c18_history (ops : List Op) : judge (run ops) = true
-
-  i.e. the monitor accepts every item of every trace: scheduler snapshots (deadlock check), and the
-  event checks `okRequest` (single flight / failure cached), `okReturn` (shared outcome),
-  `okCancelled`, "never raised".  PROVED below, for all operation sequences: the snapshot part
-  (`snapshots_ok`, from the liveness invariant `InvL`, with `no_deadlock`, `no_orphan_marker`) and the
-  "never raised" part (`never_raises`).  MISSING: `okRequest` / `okReturn` / `okCancelled` for the events
-  emitted inside `step`.  The safety invariant `InvS` they follow from is defined in
-  `Lemmas/C18Safe.lean` and proved preserved by lookup / complete / cancel / uncache, by the store of a
-  released outcome (`invS_store`) and by the end of a task incl. removal of its own marker (`invS_end`,
-  `Lemmas/C18SafeStep.lean`); not yet done: the two remaining `lookupLoop` branches (wait on another
-  marker, install a marker) and the assembly.  Until then single-flight / shared-outcome rest on the
-  run-time monitor over the exhaustively enumerated schedules (see design/C18.md).
--/
+import Upnp.Lemmas.C18History
 namespace Upnp.C18
 open Upnp St
 
@@ -138,6 +121,94 @@ theorem never_raises (ops : List Op) (t : Nat) : Item.ev (.raised t) ∉ run ops
     · subst h2; exact hstep s op h1
     · simp [St.snap] at hm
     · exact ih _ hm
+
+/-- **Main theorem** (`c18_history`): the run-time monitor/judge accepts the trace of EVERY operation
+    sequence of the model — every request passes `okRequest` (single flight, failure cached), every return
+    passes `okReturn` (shared outcome, also for waiters resumed after an uncache), every cancellation passes
+    `okCancelled`, nothing raises, every scheduler snapshot passes the deadlock check.  `judge` is the very
+    function the driver evaluates on the implementation's trace. -/
+theorem c18_history (ops : List Op) : judge (run ops) = true :=
+  feedAll_runFrom ops {} invS_init invL_init
+
+/-- every event of every trace was checked against the monitor state reached by the prefix before it -/
+theorem event_checked (ops : List Op) (pre post : List Item) (e : Ev) (h : run ops = pre ++ Item.ev e :: post) :
+    ∃ m, feedAll {} pre = some m ∧ m.checkEv e = true := by
+  have hj := c18_history ops
+  unfold judge at hj
+  rw [h, feedAll_append] at hj
+  cases hm : feedAll {} pre with
+  | none => rw [hm] at hj; simp at hj
+  | some m =>
+    refine ⟨m, rfl, ?_⟩
+    rw [hm] at hj
+    simp only [Option.bind_some, feedAll, feed] at hj
+    by_cases hc : m.checkEv e = true
+    · exact hc
+    · simp [hc] at hj
+
+/-- `single_flight` (monitor clause `okRequest`): whenever a request for `loc` reaches the requester, every
+    earlier download of `loc` requested since `loc` was last uncached had been abandoned by cancellation
+    of its lookup — no matter how many lookups overlap. -/
+theorem single_flight (ops : List Op) (pre post : List Item) (t : Nat) (loc : Loc)
+    (h : run ops = pre ++ Item.ev (.requested t loc) :: post) :
+    ∃ m, feedAll {} pre = some m ∧ m.okRequest t loc = true :=
+  event_checked ops pre post _ h
+
+/-- `failure_cached`: while a download of `loc` from the current uncache-epoch exists whose lookup was not
+    cancelled (in particular one that failed and was answered with absence), no new request for `loc` is issued. -/
+theorem failure_cached (ops : List Op) (pre post : List Item) (t : Nat) (loc : Loc)
+    (h : run ops = pre ++ Item.ev (.requested t loc) :: post) :
+    ∃ m, feedAll {} pre = some m ∧
+      ∀ d ∈ m.dls, d.loc = loc → d.epoch = m.epochOf loc → m.statusOf d.owner = some .cancelled := by
+  obtain ⟨m, h1, h2⟩ := single_flight ops pre post t loc h
+  refine ⟨m, h1, ?_⟩
+  intro d hd hl he
+  simp only [Mon.okRequest, Bool.and_eq_true, List.all_eq_true] at h2
+  have := h2.2 d hd
+  simpa [hl, he] using this
+
+/-- `shared_outcome` / `uncache_race` (monitor clause `okReturn`): whatever a lookup returns is the released
+    outcome of a download of its location, requested after the lookup was created or in the uncache-epoch the
+    lookup was created in — also for waiters resumed after an uncache (they re-fetch; they never raise,
+    `never_raises`). -/
+theorem shared_outcome (ops : List Op) (pre post : List Item) (t : Nat) (v : Out)
+    (h : run ops = pre ++ Item.ev (.returned t v) :: post) :
+    ∃ m, feedAll {} pre = some m ∧ m.okReturn t v = true :=
+  event_checked ops pre post _ h
+
+/-- a lookup ends cancelled only if `cancel` was called on it (monitor clause `okCancelled`) -/
+theorem cancelled_only_if_requested (ops : List Op) (pre post : List Item) (t : Nat)
+    (h : run ops = pre ++ Item.ev (.cancelled t) :: post) :
+    ∃ m, feedAll {} pre = some m ∧ m.okCancelled t = true :=
+  event_checked ops pre post _ h
+
+/-- non-vacuity: overlapping lookups A, B of one location share ONE failed download (both get absence), a
+    third lookup C is served from the cache without a request, `uncache`, then lookup D fetches anew and gets
+    the new outcome; the judge accepts the trace and the trace really contains those events. -/
+example :
+    let ops : List Op := [.lookup 0, .lookup 0, .step, .step, .complete 0 none, .step, .step, .lookup 0, .step,
+                          .uncache 0, .lookup 0, .step, .complete 1 (some 5), .step]
+    judge (run ops) = true
+    ∧ Item.ev (.requested 0 0) ∈ run ops ∧ Item.ev (.returned 0 none) ∈ run ops
+    ∧ Item.ev (.returned 1 none) ∈ run ops ∧ Item.ev (.returned 2 none) ∈ run ops
+    ∧ Item.ev (.requested 1 0) ∉ run ops ∧ Item.ev (.requested 2 0) ∉ run ops
+    ∧ Item.ev (.requested 3 0) ∈ run ops ∧ Item.ev (.returned 3 (some 5)) ∈ run ops := by
+  decide
+
+/-- `uncache_race` witnesses on the model (the F18b and F18c schedules): (1) A downloads, B waits, the
+    response is released, A resumes and returns, `uncache` runs BEFORE B resumes — B re-fetches (a second
+    request, by B) instead of raising; (2) A downloads, `uncache`, B starts a new download, A's pre-uncache
+    response is released — A does not store it, waits for B's download, and a later lookup C gets B's outcome. -/
+example :
+    let f18b : List Op := [.lookup 0, .lookup 0, .step, .step, .complete 0 (some 1), .step, .uncache 0, .step,
+                           .complete 1 (some 2), .step]
+    let f18c : List Op := [.lookup 0, .step, .uncache 0, .lookup 0, .step, .complete 0 (some 1), .step,
+                           .lookup 0, .step, .complete 1 (some 2), .step, .step, .step]
+    judge (run f18b) = true ∧ Item.ev (.returned 0 (some 1)) ∈ run f18b ∧ Item.ev (.requested 1 0) ∈ run f18b
+      ∧ Item.ev (.returned 1 (some 2)) ∈ run f18b
+    ∧ judge (run f18c) = true ∧ Item.ev (.returned 0 (some 2)) ∈ run f18c ∧ Item.ev (.returned 1 (some 2)) ∈ run f18c
+      ∧ Item.ev (.returned 2 (some 2)) ∈ run f18c ∧ Item.ev (.returned 2 (some 1)) ∉ run f18c := by
+  decide
 
 /-- F18a's witness on the model: lookup A, lookup B, cancel A — B re-fetches, later lookups share B's
     outcome, every lookup ends; the whole trace is accepted by the judge (non-vacuity of the
